@@ -41,7 +41,13 @@ RULE = ('deterministic core: fixed workbooks (chain leaf/mid, range, CSE array, 
         'with 1-2 failing cells of random kind and random follow-up histories (evaluate / set_value on inputs / repair '
         '/ overwrite of a healthy formula), plain and iterative (iterative: no ranges, cycles through the failing '
         'cell). Every evaluate (failing cell, dependant, retry, unrelated) is classified by the TYPE of the exception '
-        'raised. A case is non-trivial when an evaluate raises and a later evaluate follows.')
+        'raised. Exception OBJECT shapes rotate over every fault class: message, no args, several args, None, int, tuple, '
+        'bytes, an argument whose __str__ raises, a message of format metacharacters. Retry depth: the dependant and '
+        'the failing cell are each retried 3 times before the repair and evaluated twice after it. Reference forms: '
+        'bounded ranges, whole-column spelling A:A of a complete column (model-compared, plain), and - oracle-only, '
+        'plain AND iterative - SUM(B:B), SUM(r:r), INDEX(r:r,1,2), INDEX(B:B,r,1), range intersection, defined names '
+        'of a range and of the failing cell, nested, with the cause of the failure an input (FAILNEG(A_r)) that is '
+        'fixed, broken again and fixed again. A case is non-trivial when an evaluate raises and a later evaluate follows.')
 ASSUMPTIONS = [
     'failures are injected through an unknown function (=expr+FOO()) or the plugin FAILAT(id,k,expr) which raises on '
     'its k-th call (k=0: always); library functions raising on particular arguments are the same path (except Exception)',
@@ -50,6 +56,8 @@ ASSUMPTIONS = [
     'iterative mode: workbooks whose values are reached in the first pass (acyclic, or cycles through the failing cell); '
     'the model runs one pass per evaluate; no ranges / CSE / k-th-call faults there',
     'set_value only on cells that are in the cell map',
+    'raw cases (whole-row / intersection / defined-name references, ranges in iterative mode) are not run through the '
+    'model (computed references and iterative ranges are outside it): they are decided by the fresh-compiler oracle only',
     'RecursionError is raised by the plugin as an exception class, the interpreter limit itself is not provoked; the '
     'RecursionError("Do you need to use cycles=True ?") that eval_func re-raises on purpose is read as one of '
     'pycel\'s own errors (token reraised:RecursionError), any other non-pycel exception type is bare; BaseException '
@@ -62,7 +70,8 @@ ASSUMPTIONS = [
 ]
 TRUSTED = ['modelled, not verified: openpyxl ArrayFormula storage, networkx, Python exception semantics (try/except/'
            'finally, with-block), the concrete formula evaluator of pycel (compared on the generated language)']
-REQUIRED_BUCKETS = ['plain:leaf', 'plain:mid', 'plain:range', 'plain:cse', 'plain:captured', 'iter:chain', 'iter:cycle']
+REQUIRED_BUCKETS = ['plain:leaf', 'plain:mid', 'plain:range', 'plain:colref', 'plain:cse', 'plain:captured',
+                    'plain:raw', 'iter:chain', 'iter:cycle', 'iter:raw']
 EXHAUSTIVE = False
 EXPLANATION = ('theorems: failure-aware engine, all workbooks / failure positions / histories; correspondence: real '
                'ExcelCompiler vs compiled model per operation; oracle: running compiler vs fresh compilers of the '
@@ -75,11 +84,21 @@ _REF = {}
 # ---------------------------------------------------------------------------------------------------------------
 # workbook description -> Excel cells
 
+def _alias(n):
+    return n[5] if n[0] == 'R' and len(n) > 5 and n[5] else None
+
+
 def _body(nodes, i):
+    """formula body of node i; a range node with a whole-column / whole-row spelling (`A:A`, `2:2`) is written so"""
     n = nodes[i]
     if n[2] == 'cse':
-        return nodes[n[3][0]][1].partition('!')[2]
-    return c01.formula_of(nodes, i)[1:]
+        r = nodes[n[3][0]]
+        return _alias(r) or r[1].partition('!')[2]
+    body = c01.formula_of(nodes, i)[1:]
+    for j in (n[3][:1] if n[2] == 'idx' else n[3]):
+        if _alias(nodes[j]):
+            body = body.replace(nodes[j][1].partition('!')[2], _alias(nodes[j]))
+    return body
 
 
 KINDS = ['NameError', 'UnboundLocalError', 'RecursionError', 'KeyError', 'IndexError', 'ValueError', 'TypeError',
@@ -88,6 +107,7 @@ KINDS = ['NameError', 'UnboundLocalError', 'RecursionError', 'KeyError', 'IndexE
 LITS = ['{', '}', '{0}', '{name}: {0}', '%s', '%(x)s %d', '%', '\\', 'a\nb', 'say "hi"', "it's", '{{}}', '${x}', '\\n',
         '{0!r:>{1}}', '{1}{2}', 'a\r\nb', '\\"', '{:}', '{', '}}']
 # unknown function names (legal spellings; pycel lowercases, strips _xlfn., maps . to _)
+SHAPES = ['msg', 'noargs', 'multi', 'none', 'int', 'tuple', 'bytes', 'badstr', 'fmt']
 NAMES = ['FOO', 'Foo', '_XLFN.FOO', 'FOO.BAR', 'F00_X', '_FOO', 'FOO_', 'ÄBC', 'XLOOKUP', '_xlfn.XLOOKUP', 'FOO1',
          'R1C1X']
 
@@ -116,6 +136,7 @@ def formula_text(nodes, attrs, i, transient=True):
     fail, pre, post = a[0], a[1], a[2]
     lit = _lit(attrs, i)
     name = NAMES[a[4] % len(NAMES)] if len(a) > 4 and a[4] is not None else 'FOO'
+    shape = SHAPES[a[5] % len(SHAPES)] if len(a) > 5 and a[5] is not None else 'msg'
     body = _body(nodes, i)
     wrapped = False
     if lit is not None and nodes[i][2] != 'cse':
@@ -125,9 +146,9 @@ def formula_text(nodes, attrs, i, transient=True):
     if head == 'unk':
         body = f'{body}+{name}({_q(lit) if lit is not None else ""})'
     elif head == 'raise':
-        body = f'FAILAT({i},0,"{cls}",{body})'
+        body = f'FAILAT({i},0,"{cls}","{shape}",{body})'
     elif head.startswith('at') and transient:
-        body = f'FAILAT({i},{int(head[2:])},"{cls}",{body})'
+        body = f'FAILAT({i},{int(head[2:])},"{cls}","{shape}",{body})'
     elif nodes[i][2] in ('cat', 'add') and (pre or post) and not wrapped:
         body = f'({body})'
     for q in range(pre):
@@ -187,7 +208,56 @@ def _eval(comp, addr):
         return canon(exc)
 
 
+def raw_compiler(case, sets):
+    """workbook given cell by cell (sheet S), with the writes `sets` {addr: value} applied to its value cells"""
+    import openpyxl
+    from openpyxl.workbook.defined_name import DefinedName
+    from pycel import ExcelCompiler
+    from harness import c09_plugin
+    c09_plugin.reset()
+    wb = openpyxl.Workbook()
+    ws = wb.active
+    ws.title = 'S'
+    for a, v in case['raw'].items():
+        ws[a] = sets.get(a, v)
+    for k, d in (case.get('names') or {}).items():
+        wb.defined_names[k] = DefinedName(k, attr_text=d)
+    return ExcelCompiler(excel=wb, plugins=PLUGIN, cycles=True if case['mode'] == 'iter' else None)
+
+
+def raw_impl(case):
+    comp = raw_compiler(case, {})
+    out, snaps, sets = [], [], {}
+    for op in case['ops']:
+        if op[0] == 'E':
+            out.append(_eval(comp, 'S!' + op[1]))
+            snaps.append((dict(sets), op[1]))
+        else:
+            v = c01._py(op[2])
+            try:
+                comp.set_value('S!' + op[1], v)
+                out.append('ok')
+            except Exception as exc:   # noqa
+                out.append(canon(exc))
+            sets[op[1]] = v
+            snaps.append(None)
+    ref = []
+    for sn in snaps:
+        if sn is None:
+            ref.append(None)
+            continue
+        key = (json.dumps([case['mode'], case['raw'], case.get('names')], sort_keys=True),
+               json.dumps(sorted(sn[0].items())), sn[1])
+        if key not in _REF_MEMO:
+            _REF_MEMO[key] = _eval(raw_compiler(case, sn[0]), 'S!' + sn[1])
+        ref.append(_REF_MEMO[key])
+    _REF[json.dumps(case, sort_keys=True)] = ref
+    return ';'.join(out)
+
+
 def impl(case):
+    if 'raw' in case:
+        return raw_impl(case)
     nodes = case['nodes']
     comp = compiler(case)
     out = []
@@ -200,6 +270,7 @@ def impl(case):
             o = _eval(comp, nodes[op[1]][1])
             new_ranges = [j for j in cones[op[1]] - built
                           if nodes[j][0] == 'R' or (nodes[j][0] == 'F' and nodes[j][2] == 'cse')]
+            new_ranges += [j for j in new_ranges if _alias(nodes[j])]     # the reference cell + the range it bounds to
             built |= cones[op[1]]
             if len(new_ranges) >= 2 and _own(o):
                 # several ranges are first evaluated inside this call (graph construction); the order in which
@@ -238,6 +309,8 @@ def reference(case, inputs, consts, target):
 
 
 def model_lines(case):
+    if 'raw' in case:
+        return ['c09 skip']              # oracle-only: reference forms the model does not carry
     toks = ['c09', case['mode'], str(len(case['nodes']))]
     for n, a in zip(case['nodes'], case['attrs']):
         toks += [raw_of(a[0]), str(a[1]), str(a[2]), '1' if (n[0] == 'F' and n[2] == 'cse') else '0']
@@ -259,6 +332,8 @@ def model_lines(case):
 
 
 def same(impl_out, model_out):
+    if model_out == '!oracle-only':
+        return True
     a, b = (impl_out or '').split(';'), (model_out or '').split(';')
     return len(a) == len(b) and all(x == y or (x == '!exc:own:*' and _own(y))
                                     for x, y in zip(a, b))
@@ -324,22 +399,23 @@ def _violations(case, impl_out):
     if len(outs) != len(ref):
         yield 0, f'history aborted: {impl_out[:120]}'
         return
-    nodes, attrs = case['nodes'], case['attrs']
-    trans = _transient(attrs)
+    raw = 'raw' in case
+    nodes, attrs = case.get('nodes'), case.get('attrs')
+    trans = set() if raw else _transient(attrs)
     consts = set()
     for k, (o, f) in enumerate(zip(outs, ref)):
         op = case['ops'][k]
         if op[0] == 'S':
-            if nodes[op[1]][0] == 'F':
+            if not raw and nodes[op[1]][0] == 'F':
                 consts.add(op[1])
             if o != 'ok':
-                yield k, f'op #{k} set_value({nodes[op[1]][1]}) raised {o}'
+                yield k, f'op #{k} set_value({op[1] if raw else nodes[op[1]][1]}) raised {o}'
             continue
-        addr = nodes[op[1]][1]
+        addr = op[1] if raw else nodes[op[1]][1]
         if o.startswith('!exc:bare'):
             yield k, f'op #{k} evaluate({addr}) escaped as a bare internal exception {o}'
         elif _own(o):
-            cone = _cones(nodes, consts)[op[1]]
+            cone = set() if raw else _cones(nodes, consts)[op[1]]
             if not f.startswith('!exc') and not (cone & trans):
                 yield k, (f'op #{k} evaluate({addr}) raised {o} but a fresh compiler of the current workbook '
                           f'evaluates it to {core.show(f)}')
@@ -367,6 +443,8 @@ def finding_key(case, impl_out, model_out):
     """repair.formula-kept: the first wrong operation is an evaluate that follows a set_value over a FORMULA cell f and
     reads f (transitively), and — in plain mode — a set_value on a (transitive) precedent of f lies between the two
     (the kept formula is evaluated again once f is reset; in iterative mode it is evaluated on every read)."""
+    if 'raw' in case:
+        return None
     nodes = case['nodes']
     ks = [k for k, _ in _violations(case, impl_out)]
     if model_out is not None:
@@ -407,7 +485,7 @@ def nontrivial(case):
 
 
 def bucket(case):
-    return f"{case['mode']}:{case.get('pos', 'random')}"
+    return f"{case['mode']}:{case.get('pos', 'random').split('/')[0]}"
 
 
 # ---------------------------------------------------------------------------------------------------------------
@@ -427,6 +505,10 @@ FIXED = {
               ['R', A + 'A1:A3', 3, 1, [0, 1, 2]], ['F', A + 'B1', 'sum', [3]], ['F', A + 'B2', 'add', [4, 0]],
               ['F', A + 'C1', 'add', [2, 2]]],
     # A1 = 1, A2 = 2, range A1:A2, {H1:H2 = A1:A2}, H1, H2 members, B1 = H2+A1, C1 = A1+A1
+    # the range workbook read through the whole-column reference A:A
+    'colref': [['I', A + 'A1', 'n:1/1'], ['F', A + 'A2', 'add', [0, 0]], ['I', A + 'A3', 'n:3/1'],
+               ['R', A + 'A1:A3', 3, 1, [0, 1, 2], 'A:A'], ['F', A + 'B1', 'sum', [3]], ['F', A + 'B2', 'add', [4, 0]],
+               ['F', A + 'C1', 'add', [2, 2]], ['F', A + 'C2', 'idx', [3, 2, 1]]],
     'cse': [['I', A + 'A1', 'n:1/1'], ['I', A + 'A2', 'n:2/1'], ['R', A + 'A1:A2', 2, 1, [0, 1]],
             ['F', A + 'H1:H2', 'cse', [2]], ['F', A + 'H1', 'idx', [3, 1, 1]], ['F', A + 'H2', 'idx', [3, 2, 1]],
             ['F', A + 'B1', 'add', [5, 0]], ['F', A + 'C1', 'add', [0, 0]]],
@@ -437,13 +519,14 @@ REPAIRS = ['n:5/1', 'n:0/1', 's:', 's:97', 'n:7/1']       # constants written ov
 
 
 def _history(nodes, failing, repair='n:5/1'):
-    """evaluate the top dependant, retry, the failing cell, every other cell, repair, everything twice"""
+    """evaluate the top dependant and retry it 3 times, the failing cell 3 times, the dependant again, every other
+    cell, repair, everything twice"""
     cones = _cones(nodes)
     cells = [i for i, n in enumerate(nodes) if n[0] != 'R' and not (n[0] == 'F' and n[2] == 'cse')]
     dependants = [i for i in cells if failing in cones[i] and i != failing]
     top = dependants[-1] if dependants else failing
     tgt = failing if failing in cells else top
-    ops = [['E', top], ['E', top], ['E', tgt]] + [['E', i] for i in cells]
+    ops = [['E', top]] * 4 + [['E', tgt]] * 3 + [['E', top]] + [['E', i] for i in cells]
     if tgt in cells and nodes[tgt][0] == 'F' and not _special(nodes, tgt):
         ops += [['S', tgt, repair]]
     ops += [['E', i] for i in cells] + [['E', i] for i in reversed(cells)]
@@ -451,7 +534,7 @@ def _history(nodes, failing, repair='n:5/1'):
 
 
 def _blank(nodes):
-    return [['ok', 0, 0, None, None] for _ in nodes]
+    return [['ok', 0, 0, None, None, None] for _ in nodes]
 
 
 def _dress(nodes, attrs, k):
@@ -462,7 +545,7 @@ def _dress(nodes, attrs, k):
         if n[0] != 'F' or _special(nodes, i):
             continue
         if attrs[i][0] != 'ok':
-            attrs[i][3], attrs[i][4] = k, k
+            attrs[i][3], attrs[i][4], attrs[i][5] = k, k, k
         elif k % 2 == 0 or attrs[i][1] or attrs[i][2]:
             q += 1
             attrs[i][3] = q
@@ -480,7 +563,7 @@ def fixed_cases():
                 attrs = _blank(nodes)
                 attrs[f][0] = m
                 k += 1
-                pos = {'chain': 'leaf' if f == 2 else 'mid', 'range': 'range', 'cse': 'cse'}[name]
+                pos = {'chain': 'leaf' if f == 2 else 'mid', 'range': 'range', 'colref': 'colref', 'cse': 'cse'}[name]
                 yield {'mode': 'plain', 'nodes': nodes, 'attrs': _dress(nodes, attrs, k),
                        'ops': _history(nodes, f, REPAIRS[k % len(REPAIRS)]), 'pos': pos}
     # captured messages: an outer captured #VALUE! + an inner failure; two captures in one healthy formula, then a failure
@@ -524,6 +607,43 @@ def fixed_cases():
                            'pos': 'cycle'}
 
 
+def raw_cases(tier):
+    """reference forms through which a dependant reaches the failing cell: whole column / whole row, bounded range,
+    intersection, defined names (range and cell), INDEX over a whole row, nested; plain and iterative; three retries
+    of the reader, of its dependant and of the failing cell, repair of the CAUSE (an input) or of the cell, two more
+    rounds, break it again, retry, repair again."""
+    causes = [('neg', lambda r: f'=FAILNEG(A{r})', -3), ('unk', lambda r: f'=A{r}+FOO("{{0}}")', 3),
+              ('raise', lambda r: f'=FAILAT({r},0,"AssertionError","noargs",A{r})', 3),
+              ('raise', lambda r: f'=FAILAT({r},0,"ValueError","badstr",A{r})', 3),
+              ('raise', lambda r: f'=FAILAT({r},0,"RecursionError","multi",A{r})', 3)]
+    forms = [('col', lambda r: '=SUM(B:B)'), ('bounded', lambda r: '=SUM(B1:B3)'), ('row', lambda r: f'=SUM({r}:{r})'),
+             ('idxrow', lambda r: f'=INDEX({r}:{r},1,2)'), ('idxcol', lambda r: f'=INDEX(B:B,{r},1)'),
+             ('isect', lambda r: f'=SUM(B1:B3 A{r}:C{r})'), ('name', lambda r: '=SUM(colb)'),
+             ('namecell', lambda r: '=failing+1'), ('nested', lambda r: f'=SUM(B:B)+INDEX({r}:{r},1,1)+SUM(colb)')]
+    for mode in ('plain', 'iter'):
+        for r in (1, 2, 3):
+            for ci, (ckind, cause, a_val) in enumerate(causes):
+                for fname, form in forms:
+                    if tier == 'quick' and ci >= 2 and (r + ci + len(fname)) % 3:
+                        continue
+                    raw = {'A1': 1, 'A2': 2, 'A3': 3, 'B1': '=A1*10', 'B2': '=A2*10', 'B3': '=A3*10',
+                           'F5': form(r), 'H5': '=F5+1', 'G5': '=A1+A2'}
+                    raw[f'A{r}'] = a_val
+                    raw[f'B{r}'] = cause(r)
+                    fail, cells = f'B{r}', ['F5', 'H5']
+                    ops = [['E', 'F5']] * 4 + [['E', 'H5']] * 4 + [['E', fail]] * 3 + [['E', 'G5'], ['E', 'F5']]
+                    if ckind == 'neg':
+                        ops += [['S', f'A{r}', 'n:4/1']]
+                    elif mode == 'plain':
+                        ops += [['S', fail, 'n:0/1' if ci % 2 else 'n:4/1']]
+                    ops += [['E', c] for c in cells + [fail, 'G5']] * 2
+                    if ckind == 'neg':
+                        ops += [['S', f'A{r}', 'n:-1/1']] + [['E', c] for c in cells + [fail]] * 3
+                        ops += [['S', f'A{r}', 'n:0/1']] + [['E', c] for c in cells + [fail, 'G5']] * 2
+                    yield {'mode': mode, 'raw': raw, 'names': {'colb': 'S!$B$1:$B$3', 'failing': f'S!$B${r}'},
+                           'ops': ops, 'pos': f'raw/{fname}/{ckind}'}
+
+
 VALUES = [0, 1, 2, 5, -3, 'a', None, True]
 
 
@@ -553,6 +673,8 @@ def gen_workbook(rng, mode):
                 if key not in ranges:
                     members = [cellidx[c0 * nrows + r - 1] for r in range(lo, hi + 1)]
                     nodes.append(['R', f'{A}{"ABCDEFG"[c0]}{lo}:{"ABCDEFG"[c0]}{hi}', hi - lo + 1, 1, members])
+                    if mode == 'plain' and lo == 1 and hi == nrows and c0 < q // nrows and rng.random() < 0.6:
+                        nodes[-1].append(f'{"ABCDEFG"[c0]}:{"ABCDEFG"[c0]}')    # a complete earlier column: A:A
                     ranges[key] = len(nodes) - 1
                 r = ranges[key]
                 if kind == 'idx':
@@ -597,8 +719,10 @@ def gen_case(rng, mode):
             attrs[f][4] = rng.randrange(len(NAMES))
         elif r < 0.75 or mode == 'iter' or len(failing) > 1:
             attrs[f][0] = 'raise:' + rng.choice(KINDS)
+            attrs[f][5] = rng.randrange(len(SHAPES))
         else:
             attrs[f][0] = f'at{rng.randint(1, 3)}:' + rng.choice(KINDS)
+            attrs[f][5] = rng.randrange(len(SHAPES))
     for i, n in enumerate(nodes):
         if n[0] == 'F' and not _special(nodes, i) and rng.random() < 0.4:
             attrs[i][3] = rng.randrange(len(LITS))
@@ -648,6 +772,7 @@ def gen_case(rng, mode):
 
 def cases(tier, rng):
     yield from fixed_cases()
+    yield from raw_cases(tier)
     n = 250 if tier == 'quick' else 6000
     k = 0
     while k < n:
